@@ -596,6 +596,12 @@ func closeRaces(m *meta, rng *rand.Rand, round int) {
 	if n := afterClose.Load(); n > 0 {
 		m.violate("C08", fmt.Sprintf("%s: the removal listener was invoked %d times after a Close call had returned (notifier still running)", ctx, n), ctx)
 	}
+	// every caller has returned: a closed cache holds nothing and its counters say so
+	if sz, cost, nk := c.Size(), c.Cost(), len(c.Keys()); sz != 0 || cost != 0 || nk != 0 {
+		for _, p := range []string{"C08", "C10"} {
+			m.violate(p, fmt.Sprintf("%s: after Close returned and every in-flight call came back, the closed cache reports Size=%d Cost=%d len(Keys)=%d (a write was applied to the cleared cache)", ctx, sz, cost, nk), ctx)
+		}
+	}
 	deadline := time.Now().Add(3 * time.Second)
 	for runtime.NumGoroutine() > base && time.Now().Before(deadline) {
 		time.Sleep(time.Millisecond)
@@ -872,6 +878,51 @@ func closeNotify(m *meta, rng *rand.Rand, round int) {
 		}
 	}
 	m.count("close_notify_rounds")
+}
+
+// lateDrainProbe (C10, C08; regression for finding F15, fixed): a SetAsync that passed the closed checks before Close began is published
+// after Close has completely finished (workers gone, shards cleared); a Sync that also began before Close then drains
+// the ring and applies that write to the cleared, closed cache: Size/Cost report an entry that no call can reach.
+// Deterministic through the scheduler hooks (workers run freely; the two callers are parked before reserving a slot).
+func lateDrainProbe(m *meta) {
+	for _, pol := range []kioshun.EvictionPolicy{kioshun.LRU, kioshun.SieveTinyLFU, kioshun.FIFO, kioshun.LFU} {
+		ctx := fmt.Sprintf("late-drain probe policy %v", pol)
+		watch(ctx)
+		kioshun.VerifSchedReset(true, 300*time.Millisecond)
+		c, err := kioshun.New[int, int](kioshun.Config{MaxSize: 64, ShardCount: 1, EvictionPolicy: pol, WriteBufferSize: 8, WriteBatchSize: 2})
+		must(err)
+		c.Set(1, 1, kioshun.NoExpiration)
+		// P: SetAsync(3) cannot apply inline (drain token busy), passes the closed checks, parks before reserving its slot
+		c.VerifHoldDrain(0, true)
+		var perr, serr error
+		kioshun.VerifSchedSpawn(2, func() { perr = c.SetAsync(3, 3, kioshun.NoExpiration) })
+		p := stepUntil(2, 101)
+		c.VerifHoldDrain(0, false)
+		// S: Sync() passes its closed check and parks before reserving its barrier
+		kioshun.VerifSchedSpawn(3, func() { serr = c.Sync() })
+		q := stepUntil(3, 101)
+		if p != 101 || q != 101 {
+			m.count("late_drain_setup_failed")
+			kioshun.VerifSchedRelease()
+			c.Close()
+			unwatch()
+			continue
+		}
+		c.Close()          // runs to completion: flush, broadcast, workers exit, shards cleared
+		stepUntil(2, -100) // P reserves, publishes, returns
+		stepUntil(3, -100) // S reserves its barrier behind P's write and drains the ring itself
+		kioshun.VerifSchedReset(false, 0)
+		unwatch()
+		sz, cost, keys := c.Size(), c.Cost(), c.Keys()
+		_, hit := c.Get(3)
+		if sz != 0 || cost != 0 || len(keys) != 0 || hit {
+			what := fmt.Sprintf("%s: SetAsync(3,3) and Sync() both began before Close (parked before reserving a ring slot); Close ran to completion; then SetAsync returned %v and Sync returned %v. Every call has returned, yet the closed cache reports Size=%d Cost=%d while Keys()=%v and Get(3) hit=%v: Size must equal the number of keys Keys returns", ctx, perr, serr, sz, cost, keys, hit)
+			for _, p := range []string{"C10", "C08"} {
+				m.violate(p, what, ctx)
+			}
+		}
+		m.count("late_drain_probes")
+	}
 }
 
 // closeDrainNotifyProbe (C06): a SetAsync accepted while Close is in progress is applied by the write worker's
@@ -1229,7 +1280,7 @@ func pairingRace(m *meta, rng *rand.Rand, round int) {
 				}
 				if rem < 0 || (v%2 == 1 && (rem < 59*time.Minute || rem > time.Hour)) || (v%2 == 0 && rem > time.Second) {
 					if bad.Add(1) <= 2 {
-						for _, p := range []string{"C11", "C05"} {
+						for _, p := range []string{"C11", "C05", "C02"} {
 							m.violate(p, fmt.Sprintf("%s: writer alternates Set(1, even, 1ns) / Set(1, odd, 1h); a concurrent GetWithTTL(1) returned (v%d, %v): the value of one write with the deadline of another (or a negative remaining time)", ctx, v, rem), ctx)
 						}
 					}
@@ -1558,7 +1609,7 @@ func expiryRace(m *meta, rng *rand.Rand, round int) {
 				if v, rem, ok := c.GetWithTTL(1); ok {
 					if (v%2 == 1 && (rem <= time.Minute || rem > time.Hour)) || (v%2 == 0 && (rem < 0 || rem > 120*time.Microsecond)) {
 						if pairBad.Add(1) <= 2 {
-							for _, p := range []string{"C11", "C05"} {
+							for _, p := range []string{"C11", "C05", "C02"} {
 								m.violate(p, fmt.Sprintf("%s: a reader racing the rewrite got GetWithTTL(1) = (v%d, %v): the value of one write (odd: 1 h, even: 120 us) paired with the deadline of another", ctx, v, rem), ctx)
 							}
 						}
@@ -1629,7 +1680,7 @@ func expiryRace(m *meta, rng *rand.Rand, round int) {
 
 // tornRace (C11): one writer rewrites one non-expiring key in a tight loop while readers copy its multi-word value.
 func tornRace(m *meta, rng *rand.Rand, round int) {
-	conf := kioshun.Config{MaxSize: 64, ShardCount: 1, EvictionPolicy: pick(rng, []kioshun.EvictionPolicy{kioshun.SieveTinyLFU, kioshun.SieveTinyLFU, kioshun.LRU})}
+	conf := kioshun.Config{MaxSize: pick(rng, []int64{64, 64, 0}), ShardCount: 1, EvictionPolicy: pick(rng, []kioshun.EvictionPolicy{kioshun.SieveTinyLFU, kioshun.SieveTinyLFU, kioshun.LRU, kioshun.FIFO, kioshun.LFU})}
 	ctx := fmt.Sprintf("torn race round %d cfg %+v", round, conf)
 	c, err := kioshun.New[int, big](conf)
 	must(err)
@@ -1809,6 +1860,7 @@ func streamConc(o opts) {
 	staleAfterDeleteProbe(m)
 	listenerCloseProbe(m)
 	closeDrainNotifyProbe(m)
+	lateDrainProbe(m)
 	w.Close()
 	m.Traces, m.Ops = w.traces, w.ops+int(m.Dist["stress_calls"])
 	m.write(o.out)
